@@ -143,7 +143,8 @@ Definition expected_dirnode_code_pins : list (string * string) := [
     ("_pack_normalized_children", "7a5ccb3ae7ace4e7");
     ("DirectoryNode._unpack_contents", "54b4792b0a8b789c");
     ("DirectoryNode._create_and_validate_node", "aa733bbd375adbc6");
-    ("DirectoryNode._pack_contents", "78bff02dc58a87f3")].
+    ("DirectoryNode._pack_contents", "78bff02dc58a87f3");
+    ("DirectoryNode._create_readonly_node", "bbdb4eda463c97f3")].
 
 Lemma dirnode_pins_ok : dirnode_code_pins = expected_dirnode_code_pins.
 Proof. vm_compute. reflexivity. Qed.
